@@ -75,6 +75,10 @@ type Case struct {
 	// cancellation comes too late and its function runs right after the packet handler returns.
 	// (The bubble unit explores the other order: there the timer function runs first.)
 	Race bool `json:"race,omitempty"`
+	// StopEarly: the application stops the engine while Interests are still pending (it is shutting
+	// down, or about to restart the engine). The callbacks it registered are still owed: every pending
+	// Interest resolves exactly once -- by its time-out, nothing can arrive any more.
+	StopEarly bool `json:"stopearly,omitempty"`
 }
 
 const defaultLife = 4 * time.Second // NDN default InterestLifetime (no lifetime element)
@@ -336,12 +340,12 @@ type harness struct {
 	eng   *basic.Engine
 	ints  []*exInt
 	hcs   []hcall
-	inc   []*incoming       // one per "int" op (nil reply if it reached no handler)
-	hnd   map[string]int    // reference: prefix -> handler id
-	mode  map[int]int       // handler id -> mode
-	err   error             // first violation found inside a callback/handler
-	cls   map[string]bool   // classes
-	cnt   map[string]int    // counters
+	inc   []*incoming     // one per "int" op (nil reply if it reached no handler)
+	hnd   map[string]int  // reference: prefix -> handler id
+	mode  map[int]int     // handler id -> mode
+	err   error           // first violation found inside a callback/handler
+	cls   map[string]bool // classes
+	cnt   map[string]int  // counters
 	stats struct{ maxPendingNested, dataRes, nackRes, toRes int }
 }
 
@@ -564,6 +568,12 @@ func run(c Case, clk clock) (res evid.Result) {
 			}
 		}
 		h.track()
+	}
+	if c.StopEarly {
+		if len(h.pending()) > 0 {
+			h.cls["engine-stopped-with-interests-pending"] = true
+		}
+		_ = h.eng.Stop()
 	}
 	// drain: well past every lifetime, every expressed Interest must have resolved exactly once.
 	// Two advances: the dummy timer runs events in slot order within one MoveForward.
@@ -987,13 +997,14 @@ func genCase(t *rapid.T) Case {
 	var c Case
 	var now int64
 	var exps []gExp
-	var names []string // names touched so far
+	var names []string    // names touched so far
 	var attached []string // prefixes with a handler (approximately: the generator does not model refusals)
 	type gInc struct{ at, life int64 }
 	var incs []gInc
 	nInt := 0
 	nops := rapid.IntRange(1, 40).Draw(t, "nops")
 	c.Race = rapid.Bool().Draw(t, "race")
+	c.StopEarly = rapid.IntRange(0, 3).Draw(t, "stopEarly") == 0
 	randName := func(label string, minDepth int) string {
 		d := rapid.IntRange(minDepth, 4).Draw(t, label+"depth")
 		cs := make([]string, d)
